@@ -340,6 +340,10 @@ def gen_cases(tier, seed):
         ('m_first_by', [E(S1, 3, 'J11'), E(S1, 2, 'J1')], [1, 1], True, 0, False),
         ('m_last_by', [E(S1, 3, 'J11'), E(S1, 2, 'J1')], [1, 1], True, 0, False),                   # last_arrival
         ('m_last_by', [E(S1, 2, 'J1'), E(S1, 3, 'J11')], [2], True, 0, True),
+        ('m_avg_by', [E(S1, 1, 'J1'), E(S1, 2, 'J7'), E(S1, 3, 'J11')], [2, 1], True, 0, True),     # unwrap_zero: label missing
+        ('m_min_by', [E(S1, 1, 'J2'), E(S1, 2, 'J8')], [1, 1], True, 0, True),                      #              label not a number
+        ('m_sum_nogrp', [E(S1, 1, 'J7')], [1], True, 0, True),                                      #              nothing left
+        ('v_sum_nogrp', [E(S1, 1, 'J1'), E(S1, 2, 'J2'), E(S2, 3, 'J7')], [2, 1], True, 0, True),   # vec_nogrp
     ]:
         add(pidx[pid], es, cut, eof, lim, fwd)
     for pi, p in enumerate(PIPELINES):
@@ -506,6 +510,10 @@ QUIRK_TEXT = {
                    '(planner_parser_json.go:33): one label set - an empty label is no label - is split in two series',
     'min_is_max': 'min_over_time uses the comparison of max_over_time (planner_unwrap_agg.go:39)',
     'first_nonzero': 'first_over_time takes the first NON-ZERO value in arrival order (planner_unwrap_agg.go:44), not the value with the smallest timestamp',
+    'unwrap_zero': 'unwrap forwards an entry whose label is missing or not a number with the value 0 (planner_unwrap.go): a zero sample in '
+                   'sum/avg/min/max/first/last_over_time; the SQL engine drops such entries (isNotNull(toFloat64OrNull(..)))',
+    'vec_nogrp': 'a vector aggregation without by/without gets no grouping stage (planner.go planAggregators): the series stay apart; the SQL '
+                 'engine plans it as "by ()" and returns the one series without labels',
     'last_arrival': 'last_over_time takes the last value in arrival order (planner_unwrap_agg.go:49); entries arrive newest first unless direction=forward',
 }
 
@@ -682,11 +690,10 @@ def run(tier):
                 'assumptions': [
                     'the in-process chain is observed at the output channel of internal_planner.Plan (below ZeroEaterPlanner / FixPeriodPlanner) with '
                     'the window FixPeriodPlanner would pass: aligned to the range, upstream entries inside it, ordered by timestamp',
-                    'where LogQL leaves room the definition follows what both engines do: tumbling windows, unwrap of a non-number is 0, an extracted '
+                    'where LogQL leaves room the definition follows what both engines do: tumbling windows, an extracted '
                     'label overrides a stream label, label_format keeps its source, a label with the empty value is absent',
                     'regular expressions in the cases are anchored (anchoring of =~ is C07/C08 territory)',
                     'ResponseOptimizerPlanner flush at 3000 held entries and the 2000-series cap of the aggregators are outside the bounds',
-                    'a vector aggregation without by/without keeps the series apart in BOTH engines (LogQL: one series): taken as the definition here',
                     'cross-engine runs use chsql as the SQL engine'],
                 }
     finally:
@@ -696,8 +703,8 @@ def run(tier):
 CROSS_TEXT = {
     'limit-absent-or-0': 'with no limit parameter (or limit=0) the formulation that runs in process returns nothing while the SQL formulation '
                          'returns the entries: planner_limit.go vs planner_main_limit.go',
-    'undecodable-line': 'stored lines that json cannot decode: the SQL engine keeps them (nothing extracted), the in-process engine ends the '
-                        'stream - the HTTP response is a success with the entries seen so far (or none)',
+    'undecodable-line': 'the two formulations agree on the clean data and differ only on the data set with stored lines that json cannot decode '
+                        '(malformed, non-object, logfmt): both engines are expected to keep such a line with nothing extracted',
 }
 
 
